@@ -94,7 +94,9 @@ def pHist : P String := do
   if !rest.isEmpty then failure
   let (regs, log) := run [] ops
   let res := log.map fun | none => "ok" | some e => rErr e
-  pure (join (toString res.length :: res ++ toString regs.length :: regs.flatMap (dumpTA (Q.ofFrac theta))))
+  -- the ghost semantics of the same history: which trees (their split lists) every array should hold
+  let ghost := rList (fun ts => rList (fun (t : TRec) => rList (fun e => [toString e.split]) t.entries) ts) (ghostRun ops)
+  pure (join (toString res.length :: res ++ toString regs.length :: regs.flatMap (dumpTA (Q.ofFrac theta)) ++ "G" :: ghost))
 
 def rRun (theta : Q) : Except Err TA → List String
   | .ok a => "ok" :: dumpTA theta a
